@@ -349,6 +349,7 @@ func inlineCall(prog *load.Program, pk *load.Package, f *ast.File, src []byte, t
 		ptrFix string // "&" or "*" adjustment for the receiver
 	}
 	var params []param
+	var variadicBind *[2]string
 	qual := func(p *types.Package) string {
 		if p == pk.Types {
 			return ""
@@ -383,7 +384,34 @@ func inlineCall(prog *load.Program, pk *load.Package, f *ast.File, src []byte, t
 		ai := 0
 		for _, fld := range d.Type.Params.List {
 			if _, variadic := fld.Type.(*ast.Ellipsis); variadic {
-				return edit{}, "variadic"
+				// the variadic parameter becomes a slice built from the remaining arguments (or the spread slice itself)
+				if len(fld.Names) != 1 {
+					return edit{}, "variadic without a name"
+				}
+				nm := fld.Names[0]
+				obj := h.pk.Info.Defs[nm]
+				st := types.TypeString(obj.Type(), qual)
+				var txt string
+				switch {
+				case call.Ellipsis.IsValid():
+					if ai != len(call.Args)-1 {
+						return edit{}, "variadic spread"
+					}
+					txt = string(src[tf.Offset(call.Args[ai].Pos()):tf.Offset(call.Args[ai].End())])
+				case ai >= len(call.Args):
+					txt = st + "(nil)"
+				default:
+					var parts []string
+					for _, a := range call.Args[ai:] {
+						parts = append(parts, string(src[tf.Offset(a.Pos()):tf.Offset(a.End())]))
+					}
+					txt = st + "{" + strings.Join(parts, ", ") + "}"
+				}
+				if nm.Name != "_" {
+					variadicBind = &[2]string{nm.Name, txt}
+				}
+				ai = len(call.Args)
+				continue
 			}
 			if len(fld.Names) == 0 {
 				ai++
@@ -638,6 +666,10 @@ func inlineCall(prog *load.Program, pk *load.Package, f *ast.File, src []byte, t
 		}
 		return string(out)
 	}()
+	if variadicBind != nil {
+		bindNames = append(bindNames, variadicBind[0])
+		bindArgs = append(bindArgs, variadicBind[1])
+	}
 	prelude := ""
 	if len(bindNames) > 0 {
 		prelude = strings.Join(bindNames, ", ") + " := " + strings.Join(bindArgs, ", ") + "\n"
